@@ -1,6 +1,6 @@
 SPECIFICATION TraceSpec
 CONSTANTS
-  KeyIds = {1, 2, 3, 4, 5, 6, 7, 8}
-  ValIds = {1, 2, 3, 4, 5, 6, 7, 8}
+  KeyIds = {1, 2, 3, 4, 5, 6, 7, 8, 9, 10, 11, 12, 13, 14, 15, 16}
+  ValIds = {1, 2, 3, 4, 5, 6, 7, 8, 9}
 INVARIANT Report
 CHECK_DEADLOCK FALSE
